@@ -743,6 +743,12 @@ def run_T(case, ctx):
     from rsatoolbox.inference.result import Result
     shape = tuple(case['shape'])
     m = shape[1]
+    if str(case.get('nanpat', '')).startswith('model') and int(np.prod(shape[2:])) == 1:
+        # with a single fold and repetition the missing entry is one model's WHOLE evaluation in a sample; the
+        # statement speaks of NaN samples (all models), not of samples in which one model alone has no
+        # evaluation - counted, not judged
+        ctx.exclude('one model alone without evaluation in a sample: outside the statement (NaN samples)')
+        return
     ev, ceil = build_evaluations(case, ctx.seed)
     per_model_valid = [np.isfinite(np.moveaxis(ev, 1, 0)[j]).any() for j in range(m)]
     if not all(per_model_valid):
@@ -1426,6 +1432,10 @@ def run_N(case, ctx):
     types = [t for t in _S_types(shape) if t != 't-test']
     if shape[0] == 1 and case.get('mask'):
         types = [t for t in types if t != 'ranksum']     # rank-sum over subjects with missing evaluations: not claimed
+    if 'ranksum' in types and shape[-1] < 2:
+        # a rank-sum test over ONE subject is undefined (scipy refuses it when the single difference is zero)
+        types = [t for t in types if t != 'ranksum']
+        ctx.exclude('rank-sum test over a single subject: undefined')
     cfg = {'var': 'none', 'cv': 'fixed/crossvalidation' if shape[0] == 1 else 'bootstrap',
            'nc': 'fixed' if ceil.ndim == 1 else 'per-sample', 'ndim': '=2' if len(shape) == 2 else '>2'}
     models = _models(m)
